@@ -117,6 +117,41 @@ def rule_pipeline(ctx):
                   "(the original would be modified)", file=rel, line=upd_call.lineno, function=fi.qualname,
                   expected="%s.update(kwargs)" % copy_var, found=norm(upd_call))
 
+    # every channel of change is APPLIED: the constructor looks property values up in ChainMap(kwargs, custom_props) -- keyword
+    # arguments win -- and new_version() hands the old values over as keyword arguments, so a change given through
+    # `custom_properties` (which new_version() itself counts among the requested changes) loses against the old value unless the
+    # old value is taken out of the copy first
+    init = prog.func("stix2.base::_STIXBase.__init__")
+    kw_first = any(isinstance(c, ast.Call) and norm(c.func).endswith("ChainMap") and len(c.args) == 2 and norm(c.args[0]) == (init.kwarg or "kwargs")
+                   for c in body_walk(init.node)) and any(
+        isinstance(c, ast.Call) and norm(c.func).endswith(".pop") and c.args and isinstance(c.args[0], ast.Constant)
+        and c.args[0].value == "custom_properties" for c in body_walk(init.node))
+    if c_ and not kw_first:
+        run.info(R, key(rel, fi.qualname, "custom-properties-changes-applied"), "the constructor no longer prefers keyword arguments "
+                 "to custom_properties: not judged")
+    elif c_:
+        copy_var = norm(c_[0].ast.targets[0])
+        fl_ = flow_of(fi)
+        removed = []
+        for n_ in body_walk(fi.node):
+            subj = None
+            if isinstance(n_, ast.Call) and isinstance(n_.func, ast.Attribute) and n_.func.attr == "pop" and norm(n_.func.value) == copy_var and n_.args:
+                subj = n_.args[0]
+            elif isinstance(n_, ast.Delete) and isinstance(n_.targets[0], ast.Subscript) and norm(n_.targets[0].value) == copy_var:
+                subj = n_.targets[0].slice
+            if subj is not None:
+                pr_ = fl_.prov(subj)
+                if "custom_properties" in [x for x in pr_.consts if isinstance(x, str)] and (fi.kwarg or "kwargs") in pr_.params:
+                    removed.append(n_)
+        run.check(bool(removed), R, key(rel, fi.qualname, "custom-properties-changes-applied"),
+                  "a change requested through `custom_properties` is ignored for every property the object already has: the old value "
+                  "is passed to the constructor as a keyword argument, and the constructor prefers keyword arguments to "
+                  "custom_properties -- obj.new_version(custom_properties={'x_foo': 2}) keeps x_foo=1, and {'x_foo': None} does not "
+                  "remove it, although new_version() counts those names among the requested changes", file=rel,
+                  line=(e[0].lineno if e else fi.node.lineno), function=fi.qualname,
+                  expected="for prop in kwargs['custom_properties']: %s.pop(prop, None) (unless given as a keyword too)" % copy_var,
+                  found="the old values stay in %s" % copy_var)
+
     # modified: exactly one of the two branches
     def is_mod_branch(n):
         return n.kind == "test" and isinstance(n.ast, ast.If) and norm(n.ast.test) in ("'modified' in kwargs", '"modified" in kwargs')
